@@ -414,7 +414,9 @@ func root(m map[string]inst) map[string][][]int {
 	if FindFunc(res.Pkg, "sortedToks") != nil {
 		t.Fatalf("the fully inlined helper must be dropped")
 	}
-	// an impure sibling operand blocks the hoist
+}
+
+func TestInlineDoesNotHoistOverAnImpureOperand(t *testing.T) {
 	res2, _ := inlined(t, `package p
 func h(x int) int {
 	if x > 0 {
